@@ -1358,6 +1358,11 @@ _CATALOGUE = [
     <switch field="kind"><case value="1"><dummy type="short">300</dummy></case><case value="2"><field name="v" type="char"/></case>
       <case default="true"><dummy type="string">zz</dummy></case></switch></struct>
   <struct name="DummyLast"><field name="n" type="char"/><field name="last" type="StringDummy"/></struct>
+  <struct name="DummyAfterConstant"><field type="char">5</field><dummy type="short">0</dummy></struct>
+  <struct name="DummyAfterBreak"><chunked><field type="string">hi</field><break/><dummy type="char">7</dummy></chunked></struct>
+  <struct name="DummyAfterEmptyArray"><array name="xs" type="char"/><dummy type="char">9</dummy></struct>
+  <struct name="DummyInCaseAfterConstant"><field name="kind" type="char"/>
+    <switch field="kind"><case value="1"><field type="string">ok</field><dummy type="char">3</dummy></case></switch></struct>
 </protocol>""")]),
     ("blob last", True, [("pub", """<protocol>
   <struct name="WithBlob"><field name="id" type="short"/><field name="raw" type="byte"/><field name="content" type="blob"/></struct>
